@@ -383,6 +383,7 @@ func run(tier string, shard, nsh int, res *ev.Result) {
 			}
 		})
 	}
+	seqJobs(thorough, res, add)
 	var mu sync.Mutex
 	var tot local
 	ev.Par(len(jobs), runtime.NumCPU(), func(i int) {
@@ -403,6 +404,7 @@ func run(tier string, shard, nsh int, res *ev.Result) {
 	res.Axis("quantity / value field", "full 0..65535 for FC1,2,3,4,5,15,16,23(read),23(write)", 65536)
 	res.Axis("truncated / over-long bodies", "every MBAP length from 0 to full-1, +1..4", 0)
 	res.Axis("byte count field", "full 0..255 x actual payload length in B8 for FC15,16,23", 256)
+	res.Axis("request sequences on one assembler", "all ordered pairs (and triples) of 8 requests with pairwise different tid/unit/function x 7 handler kinds x 4 deliveries", 0)
 	res.Sample(Case{Frame: "beef0000000c2a1000010002040000", Handler: "device", Class: "quantity-sweep"})
 	res.Sample(Case{Frame: "01020000000411630001", Handler: "device", Class: "unsupported-fc"})
 	_ = bytes.Equal
@@ -424,6 +426,18 @@ func replay(check string, raw json.RawMessage, res *ev.Result) {
 				res.Violate(ev.Violation{Check: check, Kind: v.Kind, Attrs: v.Attrs, Msg: v.Msg, Case: c})
 			}
 		}, c.Choices)
+		return
+	}
+	if check == "reply-sequence" {
+		var c SeqCase
+		json.Unmarshal(raw, &c)
+		var fs [][]byte
+		for _, h := range c.Frames {
+			b, _ := hex.DecodeString(h)
+			fs = append(fs, b)
+		}
+		var lc local
+		evalSeq(fs, c.Handler, c.Code, c.Delivery, res, &lc)
 		return
 	}
 	var c Case
